@@ -54,8 +54,15 @@ InvOps == \A o \in CandIndexOps(st) :
                      /\ a.ret = "OK" => a.st.reg[o.k].streams = i.streams \o st.reg[o.j].streams
                 /\ o.op = "dup" => a.st.reg[o.j].streams = i.streams /\ ChecksOp(a.st.reg[o.j]) = ChecksOp(i)
                 /\ o.op = "encdec" =>
-                     /\ a.ret = "OK"
+                     /\ a.ret = "OK" /\ DoEncDec(i) = DoEncDecFold(i)
                      /\ AllRecs(a.st.reg[o.j]) = AllRecs(i) /\ StreamCount(a.st.reg[o.j]) = 1
                      /\ SizeI(a.st.reg[o.j]) = SizeI(i)
                      /\ Len(EncodedBody(i)) + 4 = SizeI(i)
+
+\* dup and encode->decode of every reachable index (also of those whose copy would not fit the exploration bounds)
+InvDup == \A i \in Regs : LET d == DoDup(i).idx IN d.streams = i.streams /\ ChecksOp(d) = ChecksOp(i) /\ ChecksI(d) = ChecksI(i)
+InvEncDec == \A i \in Regs : LET r == DoEncDec(i) IN
+                /\ r.ret = "OK" /\ r = DoEncDecFold(i)
+                /\ AllRecs(r.idx) = AllRecs(i) /\ StreamCount(r.idx) = 1 /\ SizeI(r.idx) = SizeI(i)
+                /\ Len(EncodedBody(i)) + 4 = SizeI(i)
 =============================================================================
